@@ -418,6 +418,8 @@ def _float(t, top=False):
     def lift(n):
         k = n[0]
         effs = []
+        if k == "call" and n[1] == "Ok" and len(n[2]) == 1 and (n[2][0][0] == "try" or (n[2][0][0] == "if" and _tail_try(n[2][0]))):
+            return _mk_ok(n[2][0])
 
         def take(x, lazy=False):
             if x[0] == "seq" and not lazy:
@@ -523,6 +525,19 @@ def _not(c):
     return ("op", "Not", [c])
 
 
+def _mk_ok(x):
+    """Ok(x?) is x up to the error conversion; Ok(if c { a } else { b? }) is if c { Ok(a) } else { b }"""
+    if x[0] == "try":
+        return x[1]
+    if x[0] == "if" and (_tail_try(x[2]) or _tail_try(x[3])):
+        return ("if", x[1], _mk_ok(x[2]), _mk_ok(x[3]))
+    return ("call", "Ok", [x])
+
+
+def _tail_try(x):
+    return x[0] == "try" or (x[0] == "if" and (_tail_try(x[2]) or _tail_try(x[3])))
+
+
 def _negs(c):
     """number of negated leaves of a condition built from && / ||"""
     if c[0] == "op" and c[1] in ("&&", "||"):
@@ -590,6 +605,8 @@ def _mk_if(c, t, e):
             i = diff[0]
             args = list(t[2])
             args[i] = _mk_if(c, t[2][i], e[2][i])
+            if t[1] == "Ok" and len(args) == 1:
+                return _mk_ok(args[0])
             return ("call", t[1], args)
     return ("if", c, t, e)
 
@@ -1867,8 +1884,8 @@ class Norm:
             if e.get("dk", "").startswith("Ctor") and name in ("v1::Some", "Option::Some"):
                 return ("call", "Some", args)
             if e.get("dk", "").startswith("Ctor") and name in ("v1::Ok", "Result::Ok"):
-                if len(args) == 1 and args[0][0] == "try":
-                    return args[0][1]          # Ok(x?) is x up to the error conversion
+                if len(args) == 1:
+                    return _mk_ok(args[0])
                 return ("call", "Ok", args)
             if e.get("dk", "").startswith("Ctor") and name in ("v1::Err", "Result::Err"):
                 return ("call", "Err", args)
